@@ -144,42 +144,20 @@ example : authorize (some "adm") (some "ka") .root (some "ka") = .error .unautho
 
 /-! ## Confinement -/
 
-/-- What a response may carry towards the holder of the key of database `n`: errors that mention
-only `n` or the caller's own method name, handlers of `n`, and the scoped `info` view. -/
-def ConfinedReply (n : String) (r : Request) : Reply → Prop
-  | .err .unsupportedMediaType => True
-  | .err .badBody => True
-  | .err (.methodNotFound m) => ∃ ps, r.body = .rpc m ps
-  | .err (.dbNotFound n') => n' = n
-  | .err (.unknownHandler _) => True
-  | .handler n' _ _ _ _ => n' = n
-  | .root (.info none dbs) => dbs = [n]
-  | _ => False
-
-theorem dispatchDb_confined (cfg : Cfg) (s : State) (n v : String) (e : Effect) (r : Request) :
-    ConfinedReply n r (dispatchDb cfg s n .database v e) := by
-  unfold dispatchDb
-  split
-  · simp [ConfinedReply]
-  · split
-    · simp [ConfinedReply]
-    · rename_i row hrow
-      have hmem := dispatchIn_mem _ _ _ hrow
-      have hall := principal_only_to_info.2.2.2.2.1
-      have hr := (List.all_eq_true.1 hall) row hmem
-      split
-      · rename_i hh
-        have hp : row.usesPrincipal = true := by simpa [hh] using hr
-        simp [hp, scopedInfo, ConfinedReply]
-      · simp [ConfinedReply]
+/- `ConfinedReply n r reply` (defined in `Proofs/ServerAuth`): what a response may carry towards the
+holder of the key of database `n` — errors that mention only `n` or the caller's own method name,
+handlers of `n`, and the scoped `info` view `{primary_db: none, databases: [n]}`. -/
 
 /-- **db_key_confined.** A request that was authorised as a per-database principal
 * was a `POST /{n}` whose bearer token is the key bound to `n` (and not the admin key),
-* left the server state (bindings, open set, registry) exactly as it was,
+* left the server state (bindings, open set, registry, store, read-only switch of the primary)
+  exactly as it was — given that the primary database is not bound, which holds in every reachable
+  state (`no_admin_implies_no_bound`; see `db_key_confined_reachable`),
 * and was answered only by database-scope handlers of `n`, by `n`'s scoped `info` view, or by an
   error that names nothing but `n` and the caller's own method name —
   no root-scope method is reachable from it. -/
 theorem db_key_confined (cfg : Cfg) (s : State) (r : Request)
+    (hwf : lookup s.bound cfg.primary = none)
     (h : (handle cfg s r).2.principal = some .database) :
     ∃ n k a, r.verb = .post ∧ r.target = .db n ∧ bearerToken r.auth = some k ∧
       lookup s.bound n = some k ∧ cfg.admin = some a ∧ k ≠ a ∧
@@ -196,25 +174,30 @@ theorem db_key_confined (cfg : Cfg) (s : State) (r : Request)
     have ha' := ha
     unfold authorizeState at ha'
     obtain ⟨a, n', p, hadm, hs, hp, hb, hne⟩ := authorize_ok_database _ _ _ _ ha'
-    refine ⟨n, p, a, ?_, ?_, hp, hb, hadm, hne, rpc_database_state _ _ _ _, ?_⟩
+    have hb' : lookup s.bound n = some p := hb
+    have hnp : n ≠ cfg.primary := by
+      intro e
+      rw [e, hwf] at hb'
+      cases hb' 
+    refine ⟨n, p, a, ?_, ?_, hp, hb, hadm, hne, rpc_database_state_ne _ _ _ _ hnp, ?_⟩
     · first | trivial | rfl
     · first | trivial | rfl
-    · rcases rpc_database_reply cfg s n r .database ha with h1 | h1 | ⟨m, ps, hb', h1⟩ | ⟨v, e, h1⟩
+    · rcases rpc_database_reply cfg s n r .database ha with h1 | h1 | ⟨m, ps, hb', h1⟩ | ⟨v, e, ps, h1⟩
       · rw [h1]; simp [ConfinedReply]
       · rw [h1]; simp [ConfinedReply]
       · rw [h1]; exact ⟨ps, hb'⟩
-      · rw [h1]; exact dispatchDb_confined cfg s n v e r
+      · rw [h1]; exact dispatchDb_confined cfg s n v e ps r
 
 /-- the hypotheses of `db_key_confined` are met: the key holder of `a` asks for `info` -/
 example :
     let cfg : Cfg := ⟨some "adm", "prim", 8⟩
-    let s : State := ⟨[("a", "ka"), ("b", "kb")], ["prim", "a", "b"], ["a", "b"], ["prim", "a", "b"]⟩
-    let r : Request := ⟨.post, .db "a", some (bearerPrefixBytes ++ [107, 97]), some .json, none, .rpc "info" ⟨none, none⟩, "g"⟩
+    let s : State := ⟨[("a", "ka"), ("b", "kb")], ["prim", "a", "b"], ["a", "b"], ["prim", "a", "b"], false⟩
+    let r : Request := ⟨.post, .db "a", some (bearerPrefixBytes ++ [107, 97]), some .json, none, .rpc "info" ⟨none, none, none⟩, "g"⟩
     (handle cfg s r).2 = ⟨.json, .root (.info none ["a"]), some .database⟩ := by decide
 
 /-- **root_admin_only.** Whatever changed the server state, and whatever was answered by a
 root-scope handler, was authorised as `Admin` (the admin key, or an instance without one). -/
-theorem root_admin_only (cfg : Cfg) (s : State) (r : Request) :
+theorem root_admin_only (cfg : Cfg) (s : State) (r : Request) (hwf : lookup s.bound cfg.primary = none) :
     ((handle cfg s r).1 ≠ s → (handle cfg s r).2.principal = some .admin) ∧
     (r.target = .root → r.verb = .post → (handle cfg s r).2.principal ≠ none →
       (handle cfg s r).2.principal = some .admin ∧
@@ -236,7 +219,7 @@ theorem root_admin_only (cfg : Cfg) (s : State) (r : Request) :
       cases p with
       | admin => rfl
       | database =>
-        obtain ⟨_, _, _, _, _, _, _, _, _, hs, _⟩ := db_key_confined cfg s r hp
+        obtain ⟨_, _, _, _, _, _, _, _, _, hs, _⟩ := db_key_confined cfg s r hwf hp
         exact absurd hs hne
   · intro ht hv hp
     unfold handle at hp ⊢
@@ -281,8 +264,8 @@ theorem db_key_noninterference (cfg : Cfg) (s₁ s₂ : State) (r : Request) (n 
         | admin => exact absurd (rpc_principal _ _ _ _ _ ha) hp
       subst hpp
       have ha₂ := hauth ▸ ha
-      have hd : ∀ v e, dispatchDb cfg s₂ n .database v e = dispatchDb cfg s₁ n .database v e := by
-        intro v e
+      have hd : ∀ v e ps, (dispatchDb cfg s₂ n .database v e ps).2 = (dispatchDb cfg s₁ n .database v e ps).2 := by
+        intro v e ps
         unfold dispatchDb
         rw [ho]
         split
@@ -304,7 +287,7 @@ theorem db_key_noninterference (cfg : Cfg) (s₁ s₂ : State) (r : Request) (n 
         · rfl
         · split
           · rfl
-          · rw [hd]
+          · simp only [hd]
 
 /-! ## Uniform rejection -/
 
@@ -355,12 +338,12 @@ theorem rejected_of_wrong_token (cfg : Cfg) (s : State) (r : Request) (n a : Str
 
 example :
     let cfg : Cfg := ⟨some "adm", "prim", 8⟩
-    let s₁ : State := ⟨[("a", "ka"), ("b", "kb")], ["prim", "a", "b"], ["a", "b"], ["prim", "a", "b"]⟩
-    let s₂ : State := ⟨[], ["prim"], [], ["prim"]⟩
+    let s₁ : State := ⟨[("a", "ka"), ("b", "kb")], ["prim", "a", "b"], ["a", "b"], ["prim", "a", "b"], false⟩
+    let s₂ : State := ⟨[], ["prim"], [], ["prim"], true⟩
     let tok := some (bearerPrefixBytes ++ [107, 97])   -- "Bearer ka"
     -- key of `a` on `b` (exists, bound to another key)  vs  no token on a database that does not exist
-    (handle cfg s₁ ⟨.post, .db "b", tok, some .cbor, none, .rpc "doc.get" ⟨none, none⟩, "g"⟩).2 =
-    (handle cfg s₂ ⟨.post, .db "nope", none, some .cbor, none, .rpc "db.create" ⟨some "x", none⟩, "g"⟩).2 := by
+    (handle cfg s₁ ⟨.post, .db "b", tok, some .cbor, none, .rpc "doc.get" ⟨none, none, none⟩, "g"⟩).2 =
+    (handle cfg s₂ ⟨.post, .db "nope", none, some .cbor, none, .rpc "db.create" ⟨some "x", none, none⟩, "g"⟩).2 := by
   decide
 
 /-! ## Revocation and rotation -/
@@ -389,11 +372,13 @@ theorem revocation_immediate (cfg : Cfg) (s s' : State) (n a k : String) (hadm :
         unfold authorizeState
         rw [hadm]
         exact authorize_rejects a _ _ _ (by simp [hk]) (.inl hl)
-      · cases h
-        refine ⟨?_, fun x hx => lookup_eraseKey_ne _ _ _ hx⟩
-        unfold authorizeState
-        rw [hadm]
-        exact authorize_rejects a _ _ _ (by simp [hk]) (.inl (lookup_eraseKey_self _ _))
+      · split at h
+        · cases h
+        · cases h
+          refine ⟨?_, fun x hx => lookup_eraseKey_ne _ _ _ hx⟩
+          unfold authorizeState
+          rw [hadm]
+          exact authorize_rejects a _ _ _ (by simp [hk]) (.inl (lookup_eraseKey_self _ _))
   · intro k₂ fresh res h hne
     unfold setDbApiKey at h
     simp only [Option.getD_some] at h
@@ -402,30 +387,32 @@ theorem revocation_immediate (cfg : Cfg) (s s' : State) (n a k : String) (hadm :
     · rename_i hchk
       split at h
       · cases h
-      · cases h
-        refine ⟨?_, ?_, fun x hx => lookup_setKey_ne _ _ _ _ hx⟩
-        · unfold authorizeState
-          rw [hadm]
-          simp only [lookup_setKey_self]
-          exact authorize_rejects a _ _ _ (by simp [hk])
-            (.inr (.inr (by simp only [ne_eq, Option.some.injEq]; exact fun e => hne e.symm)))
-        · unfold authorizeState
-          rw [hadm]
-          simp only [lookup_setKey_self]
-          by_cases e : k₂ = a
-          · subst e
-            have : presentedIs k₂ (some k₂) = true := (presentedIs_iff _ _).2 rfl
-            simp [authorize, this]
-          · rw [authorize_database_of a n k₂ e]
-            simp
+      · split at h
+        · cases h
+        · cases h
+          refine ⟨?_, ?_, fun x hx => lookup_setKey_ne _ _ _ _ hx⟩
+          · unfold authorizeState
+            rw [hadm]
+            simp only [lookup_setKey_self]
+            exact authorize_rejects a _ _ _ (by simp [hk])
+              (.inr (.inr (by simp only [ne_eq, Option.some.injEq]; exact fun e => hne e.symm)))
+          · unfold authorizeState
+            rw [hadm]
+            simp only [lookup_setKey_self]
+            by_cases e : k₂ = a
+            · subst e
+              have : presentedIs k₂ (some k₂) = true := (presentedIs_iff _ _).2 rfl
+              simp [authorize, this]
+            · rw [authorize_database_of a n k₂ e]
+              simp
 
 /-- `revocation_immediate` through the HTTP pipeline: if *some* request was answered with the result
 of `db.remove_api_key` for database `n`, then the next request on `POST /{n}` that does not carry
 the admin key — the revoked key, any other key, none — gets the uniform rejection. -/
 theorem revocation_immediate_http (cfg : Cfg) (s : State) (ra r : Request) (n a m : String)
-    (k : Option String) (b : Bool)
+    (k : Option String) (ro : Option Bool) (b : Bool)
     (hadm : cfg.admin = some a)
-    (hbody : ra.body = .rpc m ⟨some n, k⟩)
+    (hbody : ra.body = .rpc m ⟨some n, k, ro⟩)
     (hrep : (handle cfg s ra).2.reply = .root (.removed b))
     (hv : r.verb = .post) (ht : r.target = .db n) (htok : bearerToken r.auth ≠ some a) :
     handle cfg (handle cfg s ra).1 r = ((handle cfg s ra).1, rejected r) := by
@@ -445,6 +432,22 @@ theorem revocation_immediate_http (cfg : Cfg) (s : State) (ra r : Request) (n a 
     · exact absurd hrep (rpc_database_not_removed _ _ _ _ _)
   exact rejected_of_wrong_token cfg _ r n a hv ht hadm htok (.inl hun)
 
+/-- **No in-memory-only revocation or binding.** While the key map cannot be persisted (the primary
+database is read-only) no request changes any binding: the management calls roll back and answer
+500, so what is enforced in memory is always what a restart would reload. -/
+theorem persistence_failure_keeps_bindings (cfg : Cfg) (s : State) (r : Request) (hro : s.primaryRO = true) :
+    (handle cfg s r).1.bound = s.bound := by
+  unfold handle
+  split
+  · rfl
+  · rfl
+  · rcases rpc_root_state cfg s r with h | ⟨hd, ps, h⟩
+    · rw [h]
+    · rw [h]; exact rootHandler_bound_of_ro cfg s hd ps r.fresh hro
+  · exact rpc_database_bound _ _ _ _
+  · rfl
+  · rfl
+
 /-! ## Invariants over all histories -/
 
 /-- **no_admin_implies_no_bound.** After *every* history of requests (by anybody, to any route,
@@ -463,15 +466,29 @@ theorem primary_never_delegated (cfg : Cfg) (history : List Event) (r : Request)
     (ht : r.target = .db cfg.primary) :
     (handle cfg (run cfg (init cfg) history) r).2.principal ≠ some .database := by
   intro h
-  obtain ⟨n, k, _, _, htn, _, hl, _⟩ := db_key_confined cfg _ r h
+  obtain ⟨n, k, _, _, htn, _, hl, _⟩ := db_key_confined cfg _ r (no_admin_implies_no_bound cfg history).2 h
   rw [ht] at htn
   cases htn
   rw [(no_admin_implies_no_bound cfg history).2] at hl
   cases hl
 
+/-- `db_key_confined` and `root_admin_only` in every reachable state, without side condition. -/
+theorem db_key_confined_reachable (cfg : Cfg) (history : List Event) (r : Request)
+    (h : (handle cfg (run cfg (init cfg) history) r).2.principal = some .database) :
+    ∃ n k a, r.verb = .post ∧ r.target = .db n ∧ bearerToken r.auth = some k ∧
+      lookup (run cfg (init cfg) history).bound n = some k ∧ cfg.admin = some a ∧ k ≠ a ∧ n ≠ cfg.primary ∧
+      (handle cfg (run cfg (init cfg) history) r).1 = run cfg (init cfg) history ∧
+      ConfinedReply n r (handle cfg (run cfg (init cfg) history) r).2.reply := by
+  have hwf := (no_admin_implies_no_bound cfg history).2
+  obtain ⟨n, k, a, h1, h2, h3, h4, h5, h6, h7, h8⟩ := db_key_confined cfg _ r hwf h
+  refine ⟨n, k, a, h1, h2, h3, h4, h5, h6, ?_, h7, h8⟩
+  intro e
+  rw [e, hwf] at h4
+  cases h4
+
 def exCfg : Cfg := ⟨some "adm", "prim", 8⟩
 def exAdmin (m n : String) (k : Option String) : Event :=
-  .request ⟨.post, .root, some (bearerPrefixBytes ++ [97, 100, 109]), some .cbor, none, .rpc m ⟨some n, k⟩, "gen"⟩
+  .request ⟨.post, .root, some (bearerPrefixBytes ++ [97, 100, 109]), some .cbor, none, .rpc m ⟨some n, k, none⟩, "gen"⟩
 
 /-- a non-trivial reachable state: two tenants created with keys, one rotated to a generated key,
 one closed (its binding is kept), a restart, and a refused attempt to bind the primary -/
@@ -479,7 +496,7 @@ example :
     run exCfg (init exCfg) [exAdmin "db.create" "a" (some "ka"), exAdmin "db.create" "b" (some "kb"),
         exAdmin "db.set_api_key" "a" none, exAdmin "db.close" "b" none, .restart,
         exAdmin "db.set_api_key" "prim" (some "kp")] =
-      ⟨[("a", "gen"), ("b", "kb")], ["prim", "a"], ["a"], ["b", "a", "prim"]⟩ := by decide +kernel
+      ⟨[("a", "gen"), ("b", "kb")], ["prim", "a"], ["a"], ["b", "a", "prim"], false⟩ := by decide +kernel
 
 /-! ## Encodings -/
 
